@@ -19,7 +19,7 @@ PROP = "C09"
 SMTP_OBJS = [o for o in c06.REMOTE_OBJS if o not in ("timeoutread.o", "timeoutwrite.o")]
 RSPAWN_OBJS = "tcpto_clean.o open.a lock.a wait.a fd.a stralloc.a ids.a substdio.a error.a env.a str.a".split()
 H = os.path.join(core.VERIF, "harness")
-TIMEOUTREMOTE = 3
+TIMEOUTREMOTE = 2
 MSG = b"Subject: c09\n\nbody line\n.dot line\nlast\n"
 NFAM = 56          # output families in h_rspawn_report.c
 
@@ -163,20 +163,23 @@ def free_port():
     return p
 
 
-def run_remote(b, home, n, script, kind, sink):
+def run_remote(b, home, n, script, kind, sink, stall):
     """one run of the real qmail-remote; -> (rc, out, err, transcript|None)"""
     with open(home + "/queue/lock/tcpto", "wb") as f:
         f.write(b"\0" * 1024)
     tr = None
+    # a scripted stall costs timeoutremote seconds; everywhere else the limit is generous so that a loaded
+    # machine cannot fake a stall
+    sandbox.write_control(home, "timeoutremote", TIMEOUTREMOTE if stall else 60)
     if kind == "refused-connect":
         sandbox.write_control(home, "smtproutes", ":127.0.0.1:%d" % free_port())
     else:
         sandbox.write_control(home, "smtproutes", ":127.0.0.1:%d" % sink.port)
-        sink.start(to_sink(script, n), stall_s=TIMEOUTREMOTE + 20.0)
+        sink.start(to_sink(script, n), stall_s=90.0, accept_timeout=60.0)
     with open(home + "/msg", "rb") as fin:
         rc, out, err = core.run_with_watchdog(
             [home + "/bin/qmail-remote", "dest.test", "s@client.test"] + ["r%d@dest.test" % i for i in range(n)],
-            60, env=b.env(home), stdin=fin)
+            150, env=b.env(home), stdin=fin)
     if kind != "refused-connect":
         tr = sink.finish()
     return rc, out, err, tr
@@ -197,14 +200,17 @@ def e2e_worker(bdir, cases, tier):
             sites = [rm.site_of(flow.delivered, flow.lost_at, i) for i in range(n)]
             probs, folds, crashed = [], None, False
             for attempt in (0, 1):
-                rc, out, err, tr = run_remote(b, home, n, script, kind, sink)
+                stall = any(ph in script and script[ph].kind == "timeout" for ph in flow.reached)
+                rc, out, err, tr = run_remote(b, home, n, script, kind, sink, stall)
                 res.evaluations += 1
                 if rc is None:
                     continue
                 crashed = rc < 0 or b"Sanitizer" in err or b"runtime error" in err
                 if crashed:
                     break
-                probs, rep, folds = rm.judge_remote(n, allowed, dup, sites, out, rc)
+                # the duplicate flag is only demanded when the sink really got the complete terminator
+                got_dot = tr is not None and tr.payload is not None and tr.payload.endswith(b".\r\n")
+                probs, rep, folds = rm.judge_remote(n, allowed, dup and got_dot, sites, out, rc)
                 if not probs:
                     break
                 if attempt == 0:        # a loaded machine can fake a stall: a disagreement must repeat to count
@@ -510,14 +516,25 @@ def main(tier):
 
 
 def replay(path):
+    """re-execute the witnesses of one replay file against the current tree; 1 = reproduced, 0 = not"""
     with open(path) as f:
         w = json.load(f)
-    print(json.dumps(w, indent=1)[:3000])
+    print(json.dumps(w, indent=1)[:2500])
     key = w.get("key", "")
     b = build.vbuild("asan")
     hs, hr = compile_all(b)
     env = dict(os.environ)
     env.update(b.env())
+    hit = 0
+
+    def harness(argv):
+        p = subprocess.run(argv, env=env, capture_output=True, text=True)
+        print(p.stderr[-3000:])
+        bad = [l for l in p.stdout.splitlines() if l.startswith("V ")]
+        for l in bad:
+            print("reproduced: " + " ".join(l.split(" ")[:3]))
+        return 1 if bad or p.returncode != 0 else 0
+
     for c in w.get("cases", [])[:3]:
         wit = c.get("witness") or {}
         if key.startswith("C09/smtp") and wit.get("input"):
@@ -526,17 +543,28 @@ def replay(path):
             print("--- script: %s" % rm.show_script(script, n))
             allowed, dup, flow = rm.expectations(script, n)
             print("--- model: allowed per recipient %s, possible-duplicate required %s" % (["".join(sorted(a)) for a in allowed], dup))
-            subprocess.run([hs, "one", spec], env=env)
+            hit |= harness([hs, "one", spec])
         elif key.startswith("C09/rspawn/") and wit.get("input_hex"):
             raw = bytes.fromhex(wit["input_hex"])
-            subprocess.run([hr, "one", str(raw[0] << 8 | raw[1]), raw[2:].hex() or "-"], env=env)
-        elif wit.get("output_hex") is not None and ("wstat" in wit or "status" in wit):
-            ws = wit["wstat"] if "wstat" in wit else wstat_of(wit["status"])
-            subprocess.run([hr, "one", str(ws), wit["output_hex"] or "-"], env=env)
+            hit |= harness([hr, "one", str(raw[0] << 8 | raw[1]), raw[2:].hex() or "-"])
+        elif "/e2e/" in key or (wit.get("spec") is not None and "n" in wit):
+            script = {ph: rm.Action(*a) for ph, a in (wit.get("spec") or {}).items()}
+            r = e2e_worker(b.dir, [(wit["n"], script, wit.get("kind", "core"))], w.get("tier", "quick"))
+            for v in r.violations:
+                print("reproduced: %s %s" % (v["key"], v["why"]))
+            hit |= 1 if r.violations else 0
+        elif wit.get("output_hex") is not None and "status" in wit:
+            r = rspawn_worker(b.dir, compile_standin(b), [(bytes.fromhex(wit["output_hex"]), wit["status"])], w.get("tier", "quick"))
+            for v in r.violations:
+                print("reproduced: %s %s" % (v["key"], v["why"]))
+            hit |= 1 if r.violations else 0
+        elif wit.get("output_hex") is not None and "wstat" in wit:
+            hit |= harness([hr, "one", str(wit["wstat"]), wit["output_hex"] or "-"])
         elif wit.get("harness_args"):
             a = wit["harness_args"].split()
             if a and a[-1].startswith("/"):
                 a = a[:-1]                 # the emit file of the original run
-            subprocess.run([hr if a[0] in ("all",) or "rspawn" in key else hs] + a, env=env)
-    print("full re-run: VERIF_SEED=%s ./check C09 --tier %s" % (w.get("seed"), w.get("tier")))
-    return 1 if w.get("cases") else 2
+            hit |= harness([hr if "rspawn" in key else hs] + a)
+    print("%s on this tree; full re-run: VERIF_SEED=%s ./check C09 --tier %s" % (
+        "REPRODUCED" if hit else "not reproduced", w.get("seed"), w.get("tier")))
+    return 1 if hit else 0
